@@ -24,6 +24,7 @@ TIMES = 'history/times.py'; HFILES = 'history/files.py'; TNETS = 'server/tnetstr
 POLL = 'server/enip/poll.py'; DEFAULTS = 'server/enip/defaults.py'; NETWORK = 'server/network.py'
 
 VARIANTS = [
+    V( 'datasize-in-two-statements', PARSER, "return cls.TYPES_SUPPORTED[tag_type].struct_calcsize * size", "width			= cls.TYPES_SUPPORTED[tag_type].struct_calcsize\n        return size * width", silent=[ 'T-TYPES', 'F-FRAG' ] ),
     V( 'fromregex-cut-despite-live-wildcard', AUTO, "if states.get( nxt ) is None and states[pre].get( True ) is None:", "if states.get( nxt ) is None:", fires=[ 'X-FROMREGEX' ] ),
     V( 'fromregex-cut-test-reordered', AUTO, "if states.get( nxt ) is None and states[pre].get( True ) is None:", "if states[pre].get( True ) is None and states.get( nxt ) is None:", silent=[ 'X-FROMREGEX' ] ),
     V( 'one-failed-request-swallowed', MAIN, "log.error( \"Failed request (exception %r): %r\", exc, data )\n enip_process( addr, data=dotdict() )\n raise", "log.error( \"Failed request (exception %r): %r\", exc, data )\n                        enip_process( addr, data=dotdict() )\n                        raise", fires=[ 'P-ONE' ] ),
